@@ -159,6 +159,15 @@ def make_plan(seed: int, tier: str, index: int) -> dict[str, Any]:
     sc = rng.stream(seed, "sched")
     n_clients = 2 if index % 4 == 2 else 1
     schedule: dict[str, Any] = {"mode": "sequential", "seed": 0, "p_boundary": 0.0}
+    if n_clients == 1 and doc["tracks"] and f.random() < 0.15:
+        # an allocation failure (or another ordinary exception) inside the parse of one instrument
+        # section: the read may fail; a chart that is returned must still hold every track
+        vv = variants[f.randrange(len(variants))]
+        vv["op"]["abort"] = {"in": f.choice(["InstrumentTrack", "_build_note_events", "NoteEvent.from_parsed",
+                                             "SpecialEvent.from_parsed", "TrackEvent.from_parsed"]),
+                             "at": f.choice([1, 2, 3, 5, 8, 13]),
+                             "exc": f.choice(["MemoryError", "OSError", "RuntimeError", "KeyError"])}
+        schedule = {"mode": "geometric", "seed": 0, "gap": 10**9}  # tracing on, never a switch
     if n_clients > 1:
         schedule = {"mode": "geometric", "seed": sc.getrandbits(32), "gap": sc.choice([3, 10, 30, 200, 1000])}
         if sc.random() < 0.3:
@@ -330,7 +339,7 @@ def execute(plan: dict[str, Any]) -> dict[str, Any]:
                 op = v["op"]
                 data = (b"\xef\xbb\xbf" if v["bom"] else b"") + v["text"].encode("utf-8")
                 before = dict(fs.stats)
-                sched.begin_op(client, k)
+                sched.begin_op(client, k, op.get("abort"))
                 chart = None
                 err: BaseException | None = None
                 try:
@@ -340,7 +349,14 @@ def execute(plan: dict[str, Any]) -> dict[str, Any]:
                 except BaseException as e:  # noqa: BLE001
                     err = e
                 sched.end_op(client)
+                aborted = client.abort_fired_at is not None
                 with sched.atomic(client):
+                    if aborted:
+                        fired["abort_in_section_parse"] = fired.get("abort_in_section_parse", 0) + 1
+                        if err is not None:
+                            continue  # may fail (any exception) ...
+                        probes["abort_swallowed_chart_returned"] = probes.get("abort_swallowed_chart_returned", 0) + 1
+                        # ... never wrong data: judged below like any other variant
                     delta = {kk: fs.stats.get(kk, 0) - before.get(kk, 0) for kk in fs.stats}
                     records[vi] = (chart, err, list(client.log),
                                    {kk: n for kk, n in delta.items() if n})
